@@ -135,7 +135,7 @@ def malformed(rng, n):
     fixed = ['', '.deb', '..deb', '_.deb', 'a.deb', 'a_1', 'a_1.txt', 'a_1_b_c.deb', 'a_1.orig.tar', 'a_1.tar.gz', 'a_1.orig.tar.zip',
              'a_x.deb', 'a__b.deb', 'a_1.0+_amd64.deb', 'a_1:_amd64.deb', 'x/a_1.0_amd64.deb/', 'a_1.0_amd64.DEB', '_copyright',
              'a_copyright', 'a_1_copyright', 'a_1_b_copyright', 'a_1.0.orig.tar.tar.gz', 'a_٣_amd64.deb', 'a_1.0_amd64.deb ',
-             'a_1.debian.tar.lzma', 'a_1.orig.x.tar.gz', '.orig.tar.gz', 'a_1_2_3.dsc', 'a.b_1.dsc', '..._1_a.deb']
+             'a_1.debian.tar.lzma', 'a_1.orig.x.tar.gz', 'tar_1%3a1.34+dfsg-1_amd64.deb', 'tar_1.34%7Erc1-1.dsc', '.orig.tar.gz', 'a_1_2_3.dsc', 'a.b_1.dsc', '..._1_a.deb']
     for f in fixed:
         yield f
     for case in random_a(rng, n):
@@ -148,8 +148,23 @@ def malformed(rng, n):
             fn = fn.replace('_', rng.choice(('', '__', '-', '_x_')), 1)
         elif r < 0.7:
             fn = fn[:-rng.randint(1, 4)]
-        elif r < 0.85:
+        elif r < 0.8:
             fn = fn + rng.choice(('.gz', '.bak', '_copyright', '.deb', '/'))
+        elif r < 0.92:
+            # an escape sequence of another layer inside the version part: it is not a version character, so the
+            # name must be rejected - a parser that decodes it first would accept
+            parts = fn.split('_')
+            if len(parts) >= 2:
+                v = parts[1]
+                esc = rng.choice(('%3a', '%3A', '%7E', '%2B', '%41', '%', '&#58;', '\\x3a', '%253a', '\\u003a', '=3A'))
+                if rng.random() < 0.5 and any(c in v for c in ':~+'):
+                    for c, e in ((':', '%3a'), ('~', '%7E'), ('+', '%2B')):
+                        v = v.replace(c, e)
+                else:
+                    pos = rng.randrange(len(v) + 1)
+                    v = v[:pos] + esc + v[pos:]
+                parts[1] = v
+                fn = '_'.join(parts)
         yield fn
 
 
